@@ -18,7 +18,7 @@ RULE = ("sequences of expedited SDO writes to 14xx/16xx/18xx/1Axx sub-indices wi
 ASSUMPTIONS = ["abort code of 'PDO currently valid / count not zero' refusals is not constrained", "re-writing an identical valid COB-ID may be refused",
                "an entry naming fewer bits than the object has may be refused or accepted (then it must take effect as stored); dummy entries are not written through SDO",
                "whether a count that includes unset (zero) entries is accepted is not constrained; such a PDO must stay inactive"]
-VARIANTS = ["asan"]
+VARIANTS = ["asan", "asanp", "asanq"]
 
 PREOP, OP = 2, 3
 E_MAP, E_MAPN, E_RANGE = 0x06040041, 0x06040042, 0x06090030
@@ -46,7 +46,9 @@ class Pdo:
 
 
 class World:
-    def __init__(self, rng, npdo):
+    def __init__(self, rng, npdo, nr=None, nt=None):
+        nr = npdo if nr is None else nr      # channel counts of the build (CO_RPDO_N / CO_TPDO_N): every channel has its records
+        nt = npdo if nt is None else nt
         self.rng = rng
         self.nid = nid = rng.choice([1, 4, 90])
         cfg = Config(nodeid=nid, freq=1000, tmrnum=16)
@@ -63,17 +65,24 @@ class World:
         cfg.add(S.domain(0x2301, 0, 8, self.big, flags=RW | P))      # an 8-byte object (mapped through the application callbacks)
         cfg.add(S.Obj(0x2303, 0, RW | P, "usr", "U", 3, 0, 0, 0, 0x665544))    # a 3-byte object (UNSIGNED24 as user type), application's data as well
         self.pdos = []
-        for n in range(npdo):
+        for n in range(max(nr, nt)):
             good_r = [gen.maplink(0x2300, s, 8 * self.objs[(0x2300, s)][0]) for s in (0, 1, 2)]
             good_t = [gen.maplink(0x2300, s, 8 * self.objs[(0x2300, s)][0]) for s in (3, 4, 5)]
             mr = good_r[:rng.randint(0, 3)]
             mt = good_t[:rng.randint(0, 3)]
-            cr = 0x200 + 0x100 * n + (0x80000000 if rng.random() < 0.4 else 0)
+            cr = 0x200 + 0x80 * n + (0x80000000 if rng.random() < 0.4 else 0)
             ct = 0x40000180 + 0x100 * n + (0x80000000 if rng.random() < 0.4 else 0)
-            gen.add_rpdo(cfg, n, cr, 255, mr)
-            gen.add_tpdo(cfg, n, ct, 254, 0, 0, mt)
-            self.pdos.append(Pdo(False, n, nid, cr + nid, 255, mr))
-            self.pdos.append(Pdo(True, n, nid, ct + nid, 254, mt))
+            if nr == nt:
+                cr = (cr & 0x80000000) | (0x200 + 0x100 * n)
+            else:
+                cr = (cr & 0x80000000) | (0x400 + 0x40 * n)      # up to six channels: identifiers of their own, disjoint, below the SDO range
+                ct = (ct & 0xC0000000) | (0x180 + 0x40 * n)
+            if n < nr:
+                gen.add_rpdo(cfg, n, cr, 255, mr)
+                self.pdos.append(Pdo(False, n, nid, cr + nid, 255, mr))
+            if n < nt:
+                gen.add_tpdo(cfg, n, ct, 254, 0, 0, mt)
+                self.pdos.append(Pdo(True, n, nid, ct + nid, 254, mt))
         cfg.finalize()
         self.cfg = cfg
         self.mode = PREOP
@@ -101,7 +110,7 @@ def gen_write(rng, w, p):
         kind = "type"
     if kind == "cob":
         cur = p.cob
-        other = (cur & ~0x7FF) | ((cur + 0x10) & 0x7FF)
+        other = cur ^ 0x10          # (toggles between two identifiers of the channel's own block: identifiers of different channels never meet)
         v = rng.choice([cur ^ 0x80000000, cur ^ 0x80000000, cur, other | 0x80000000, other & ~0x80000000, cur | 0x20000000,
                         (cur ^ 0x80000000) | 0x20000000, cur ^ 0x40000000, (cur ^ 0x80000000) ^ 0x40000000])
         return p.comm(), 1, 4, v & 0xFFFFFFFF, kind
@@ -352,8 +361,8 @@ def check_activation(w, sim, p, fail):
     return True
 
 
-def run_sequence(res, exe, rng, first, npdo, forced=None):
-    w = World(rng, npdo)
+def run_sequence(res, exe, rng, first, npdo, forced=None, nr=None, nt=None):
+    w = World(rng, npdo, nr, nt)
     sim = S.Sim(exe, w.cfg)
     nid = w.nid
     script = []
@@ -516,6 +525,9 @@ def plan(tier, seed):
     q = tier == "quick"
     items = [("one", i, 60 if q else 600) for i in range(32 if q else 200)]
     items += [("four", i, 30 if q else 300) for i in range(16 if q else 100)]
+    # builds whose channel counts differ from each other: CO_RPDO_N=2 / CO_TPDO_N=6 and CO_RPDO_N=5 / CO_TPDO_N=3
+    items += [("r2t6", i, 20 if q else 200) for i in range(8 if q else 50)]
+    items += [("r5t3", i, 20 if q else 200) for i in range(8 if q else 50)]
     return items
 
 
@@ -523,7 +535,12 @@ def work(item, ctx):
     res = F.Res()
     for h in range(item[2]):
         rng = random.Random(F.seed_for(ctx["seed"], "C14", item[0], item[1], h))
-        run_sequence(res, ctx["exes"]["asan"], rng, item[1] == 0 and h == 0, 1 if item[0] == "one" else 4)
+        if item[0] in ("r2t6", "r5t3"):
+            nr, nt = (2, 6) if item[0] == "r2t6" else (5, 3)
+            run_sequence(res, ctx["exes"]["asanp" if item[0] == "r2t6" else "asanq"], rng, False, max(nr, nt), nr=nr, nt=nt)
+            res.counters["sequences_on_unequal_channel_counts"] += 1
+        else:
+            run_sequence(res, ctx["exes"]["asan"], rng, item[1] == 0 and h == 0, 1 if item[0] == "one" else 4)
     return res
 
 
